@@ -161,8 +161,8 @@ def main():
     man = {
         "version": 1,
         "setup_cmd": "./setup.sh",
-        "hooks": {"guard": "SKMATTER_VERIF", "enable": "no source hooks are needed: the harness observes public attributes and wraps public methods at run time; the guard name is reserved",
-                  "baseline_off_cmd": "/verif/tools/baseline_off.py", "source_commits": [], "add_only": True},
+        "hooks": {"guard": "SKMATTER_VERIF", "enable": "SKMATTER_VERIF=1 SKMATTER_VERIF_TRACE_FILE=<ndjson> (set by harness/hooktraces.py when it runs the repository's selector tests); every other observation uses public attributes and run-time wrappers of public methods, no build step",
+                  "baseline_off_cmd": "/verif/tools/baseline_off.py", "source_commits": ["5a28a27"], "add_only": True},
         "engines": [{"name": "tlc", "path": "/verif/check", "serves_properties": [c["property_id"] for c in checks],
                      "kind_free_text": "explicit TLA+ specifications under /verif/spec model-checked with TLC 1.8.0; conformance by TLC trace validation of executions of the real code and by replay of TLC-generated behaviours"}],
         "checks": checks,
